@@ -13,6 +13,17 @@
 // scripted client has seen go-zero's follow-up Watch call (load and handleChanges are
 // then complete) before the marker is put. Wall-clock timers exist only as watchdogs
 // whose firing is reported as inconclusive.
+//
+// Two "go-zero never does X" outcomes are decided from what the scripted etcd sees
+// instead of by a watchdog:
+//   - no reload after a compaction: go-zero re-issues Watch at a compacted revision
+//     refusalsWithoutLoad times in a row (each refused, as etcd would) without a Get
+//     -> hist.reloadMissing, key C13/reload-missing/compaction-not-followed-by-load;
+//   - an observer is never shown the marker: go-zero received a progress notification
+//     queued BEHIND the marker's response (hist.await) -> the ordinary comparison runs
+//     at once and names what is wrong.
+// Per process the first reportsPerChild outcomes of each kind are reported, the rest
+// only counted, so that a tree broken in one of these ways ends quickly.
 package c13
 
 import (
@@ -187,19 +198,64 @@ func has(vs []string, x string) bool {
 	return false
 }
 
-func (l *lisRec) waitFor(marker string) bool {
+const (
+	awSeen = iota
+	awHandled
+	awTimeout
+)
+
+// probe: one progress notification per feed and synchronisation, sent lazily.
+type probe struct {
+	asked bool
+	done  chan struct{}
+}
+
+// nudge is how long an observer is waited for before the scripted etcd is asked whether
+// go-zero has got past the marker. It only decides WHEN the question is put; the
+// answer is causal. Once a process has had several such outcomes the question is put
+// at once.
+func nudge() time.Duration {
+	if budgetSpent("marker-handled-unseen") {
+		return 0
+	}
+	return time.Second
+}
+
+// await waits until observer l has been shown the marker value (awSeen), or until
+// go-zero provably finished handling the watch response carrying the marker without
+// l having been shown it (awHandled: decided from the order of responses on the
+// stream, never from elapsed time), or until the watchdog fires (awTimeout).
+func (h *hist) await(l *lisRec, fk wkey, marker string, pr *probe) int {
+	seen := func() bool {
+		_, last := l.snapshot()
+		return has(last, marker) || l.panicked() != ""
+	}
 	t := time.NewTimer(patience())
 	defer t.Stop()
+	var ask <-chan time.Time
+	if !pr.asked {
+		n := time.NewTimer(nudge())
+		defer n.Stop()
+		ask = n.C
+	}
 	for {
-		_, last := l.snapshot()
-		if has(last, marker) || l.panicked() != "" {
-			return true
+		if seen() {
+			return awSeen
 		}
 		select {
 		case <-l.sig:
+		case <-ask:
+			ask = nil
+			pr.asked = true
+			pr.done = h.f.probe(fk)
+		case <-pr.done:
+			if seen() {
+				return awSeen
+			}
+			return awHandled
 		case <-t.C:
 			fired()
-			return false
+			return awTimeout
 		}
 	}
 }
@@ -526,6 +582,8 @@ func (h *hist) sync() {
 	}
 	var mv string
 	for attempt := 0; ; attempt++ {
+		probes := map[wkey]*probe{}
+		var decided []*lisRec
 		if attempt == 6 {
 			h.inconclusive("reloads kept happening while synchronising")
 			return
@@ -550,18 +608,45 @@ func (h *hist) sync() {
 				}
 				continue
 			}
+			pr := probes[s.fk]
+			if pr == nil {
+				pr = &probe{}
+				probes[s.fk] = pr
+			}
 			for i, l := range s.lis {
-				if !l.waitFor(mv) {
+				switch h.await(l, s.fk, mv, pr) {
+				case awHandled:
+					decided = append(decided, l)
+				case awTimeout:
 					h.inconclusive(fmt.Sprintf("watchdog: listener %d of %s never observed marker %s", i, s.name, mv))
 					return
 				}
 			}
 			if s.res != nil && !s.large {
-				if !s.res.waitFor(mv) {
+				switch h.await(&s.res.lisRec, s.fk, mv, pr) {
+				case awHandled:
+					decided = append(decided, &s.res.lisRec)
+				case awTimeout:
 					h.inconclusive("watchdog: resolver never published marker " + mv)
 					return
 				}
 			}
+		}
+		if len(decided) > 0 {
+			// go-zero has handled the watch response that carried the marker (it received a
+			// response queued behind it) and an observer still has not been shown the marker:
+			// waiting cannot change that. The ordinary comparison below names what is wrong
+			// (value missing from the view / listener not notified / stale notification).
+			h.c.Obs("syncs_decided_by_probe", 1)
+			if !takeBudget("marker-handled-unseen") {
+				h.c.Obs("reports_suppressed_marker_unseen", 1)
+				h.dead = true
+				return
+			}
+			for _, l := range decided {
+				l.stable() // belt and braces: the observer's state stopped changing
+			}
+			break
 		}
 		g1, w1, _ := h.f.totals()
 		if g0 == g1 && w0 == w1 {
@@ -862,7 +947,7 @@ func (h *hist) reload(kind int, n int, next func() op) {
 		h.f.compact()
 	}
 	for _, wk := range feeds {
-		_, w := h.f.calls(wk)
+		g, w := h.f.calls(wk)
 		switch kind {
 		case rlBreakClose, rlBreakCancel:
 			h.f.breakStream(wk, kind == rlBreakCancel)
@@ -873,12 +958,104 @@ func (h *hist) reload(kind int, n int, next func() op) {
 		}
 		// whatever go-zero does to recover (re-watch; or re-watch, be told "compacted",
 		// load, watch again), it ends with a watch that is being served
-		if !h.f.waitLive(wk, w+1) {
+		switch h.f.waitLive(wk, w+1) {
+		case wlStuck:
+			h.reloadMissing(wk, rlNames[kind])
+			return
+		case wlTimeout:
 			h.inconclusive("watchdog: go-zero did not re-establish the watch after " + rlNames[kind])
 			return
 		}
+		if g1, _ := h.f.calls(wk); kind >= rlCompactBreak && g1 > g {
+			h.c.Obs("compactions_followed_by_load", 1)
+		}
 	}
 	h.sync()
+}
+
+// Reports per child process and kind of causally decided "go-zero never does X"
+// outcome; further occurrences in the same process are only counted, so that a tree on
+// which every compaction (or every notification) fails yields a handful of violations
+// quickly. The bound depends on the number of reports only, not on time.
+const reportsPerChild = 5
+
+var (
+	budgetMu   sync.Mutex
+	budgetUsed = map[string]int{}
+)
+
+func takeBudget(kind string) bool {
+	budgetMu.Lock()
+	defer budgetMu.Unlock()
+	budgetUsed[kind]++
+	return budgetUsed[kind] <= reportsPerChild
+}
+
+func budgetSpent(kind string) bool {
+	budgetMu.Lock()
+	defer budgetMu.Unlock()
+	return budgetUsed[kind] >= reportsPerChild
+}
+
+// reloadMissing: the scripted etcd told go-zero that the revision it watches from has
+// been compacted, and go-zero answered with refusalsWithoutLoad further Watch calls at
+// a compacted revision and no Get: it does not reload, has no served watch, and so has
+// no way of learning the registrations. To tie this to the statement a fresh key/value
+// is registered now; Values() (and the resolver's published list) cannot contain it.
+func (h *hist) reloadMissing(wk wkey, after string) {
+	h.dead = true
+	h.c.Obs("compactions_not_followed_by_load", 1)
+	if !takeBudget("reload-missing") {
+		h.c.Obs("reports_suppressed_reload_missing", 1)
+		return
+	}
+	calls := h.f.callLog(wk)
+	h.markerN++
+	mk := fmt.Sprintf("%s/~m%d", h.prefix, h.markerN)
+	mv := fmt.Sprintf("marker-%d", h.markerN)
+	h.f.apply(op{k: mk, v: mv})
+	h.log = append(h.log, fmt.Sprintf("PUT %s=%s (registered after go-zero stopped at the compaction)", mk, mv))
+	type view struct {
+		Subscriber, Mode string
+		Got              []string
+		Registered       map[string]string
+	}
+	var views []view
+	wrong := 0
+	who := ""
+	for _, s := range h.subs {
+		if s.closed || s.fk != wk {
+			continue
+		}
+		got, pv := s.values()
+		if pv != nil {
+			h.panicViol(s, "Values()", pv)
+			return
+		}
+		store := h.f.current(s.wk)
+		views = append(views, view{s.name, s.mode, got, store})
+		if s.large {
+			continue
+		}
+		plain := &mirror{wk: s.wk}
+		for _, mm := range plain.compare(store, got) {
+			if mm.kind == "stale-value" || mm.val == mv {
+				wrong++
+				if who == "" {
+					who = fmt.Sprintf("%s subscriber %s: value %q is %s", s.mode, s.name, mm.val, mm.kind)
+				}
+			}
+		}
+	}
+	if wrong == 0 {
+		h.c.Inconclusive("go-zero did not reload after " + after + " but no open subscriber shows a wrong view (history: " + strings.Join(h.log, "; ") + ")")
+		return
+	}
+	key := "C13/reload-missing/compaction-not-followed-by-load"
+	h.reported[key] = true
+	h.c.Viol(key, fmt.Sprintf("after %s go-zero re-issued Watch %d times at a compacted revision (each answered \"compacted\") without a Get for the watched range: no reload, no served watch; %s",
+		after, refusalsWithoutLoad, who),
+		map[string]any{"endpoint": h.ep, "watched_key": h.prefix, "steps": h.log, "etcd_calls_on_this_watch": calls, "views": views})
 }
 
 // ---------------------------------------------------------------- generators
@@ -1332,7 +1509,10 @@ func reconnectHistory(c *kit.Case) {
 			break
 		}
 		// the reload may still be in progress for a moment: wait for the served watch
-		if !h.f.waitLive(h.subs[0].fk, w0+1) {
+		if wl := h.f.waitLive(h.subs[0].fk, w0+1); wl == wlStuck {
+			h.reloadMissing(h.subs[0].fk, "a reconnect reload")
+			break
+		} else if wl == wlTimeout {
 			h.inconclusive("watchdog: reload did not end with a served watch")
 			break
 		}
